@@ -206,9 +206,55 @@ def closed_outputs(verdict):
     return {"cases": [c[0] for c in closed_output_cases()], "commands_run": n}
 
 
+def many_records(verdict):
+    """redo's own records (do / done of every target it builds) go to the log viewer through a pipe.  While the viewer follows
+    the FIRST target of the command line it reads that target's log, not the pipe: a first target that outlasts 64 KiB of
+    records of the others (here 220 targets with long names; with short names about 800) must not stop the build.
+    (On a tree that hangs the case costs its whole watchdog, 90 s.)"""
+    import os
+    import shutil
+    import subprocess
+    bindir = common.build_subject()
+    d = common.scratch_root() / "c09many"
+    (d / "p" / ".redo").mkdir(parents=True)
+    (d / "home").mkdir()
+    try:
+        P = d / "p"
+        (P / "slow.do").write_text('while [ ! -e go ]; do sleep 0.05; done\necho slow\n')
+        (P / "default.t.do").write_text('echo t\n')
+        (P / "last.do").write_text(': > go\n')
+        names = ["t" + "x" * 200 + "%03d.t" % i for i in range(220)]
+        env = common.base_env(bindir, d / "home")
+        with open(d / "err", "wb") as ef:
+            p = subprocess.Popen([str(bindir / "redo"), "-j2", "slow"] + names + ["last"], cwd=str(P), env=env, stdin=subprocess.DEVNULL,
+                                 stdout=subprocess.DEVNULL, stderr=ef, start_new_session=True)
+            try:
+                rc = p.wait(timeout=90)
+            except subprocess.TimeoutExpired:
+                rc = None
+                import signal
+                try:
+                    os.killpg(p.pid, signal.SIGKILL)
+                except ProcessLookupError:
+                    pass
+                p.wait()
+        built = sum(1 for n in names if (P / n).exists())
+        if rc is None:
+            verdict.report({"kind": "hang-when-redos-own-records-fill-the-pipe-to-the-log-viewer", "case": "first-target-outlasts-64KiB-of-records"},
+                           {"engine": "E1-many-records", "command": "redo -j2 slow <220 long names> last", "targets_built_before_the_hang": built,
+                            "stderr_tail": (d / "err").read_bytes()[-300:].decode("utf-8", "replace")})
+        elif rc != 0:
+            verdict.report({"kind": "all-scripts-succeed-but-exit-nonzero", "case": "first-target-outlasts-64KiB-of-records", "rc": rc},
+                           {"engine": "E1-many-records", "stderr_tail": (d / "err").read_bytes()[-300:].decode("utf-8", "replace")})
+        return {"targets": len(names) + 2, "built": built, "rc": rc}
+    finally:
+        shutil.rmtree(d, ignore_errors=True)
+
+
 def main(tier):
     v = common.Verdict(PID)
     cov_pipe = closed_outputs(v)
+    cov_pipe["many_records"] = many_records(v)
     rc_pipe = v.finish()
     rc = main_e2(tier, cov_pipe, v.count)
     return 1 if (rc or rc_pipe) else 0
